@@ -42,7 +42,7 @@ def plan(tier):
 
 
 def floors(tier):
-    return {"nontrivial": 8, "counter:cells_judged": 80, "counter:runs": 200000, "counter:events_simulated": 1000000,
+    return {"nontrivial": 8, "counter:gridded_configurations": 2, "counter:raw_configurations": 6, "counter:cells_judged": 80, "counter:runs": 200000, "counter:events_simulated": 1000000,
             "class:first-step": 2, "class:chain": 2, "class:immigration-death": 2, "class:sir-final-size": 2}
 
 
@@ -143,16 +143,32 @@ def run_case(rng, idx, tier, lane, ctx):
         cfg = {"kind": kind, "N": N, "i0": i0, "beta": beta, "gamma": gamma}
     cfg["runs"] = n_runs
     cfg["seed"] = seed
+    # the law is a property of what the user reads: half of the non-first-step configurations read the state at T from the
+    # gridded form of the call (t = [0, T/2, T] resp. [0, far past extinction]) instead of the raw path
+    gridded = kind != "first-step" and (idx // len(KINDS)) % 2 == 1
+    cfg["read_from"] = "gridded output" if gridded else "raw path"
     try:
         m = S.build_sim(spec, theta, x0)
         np.random.seed(seed)
         with contextlib.redirect_stdout(io.StringIO()):
-            Xs, Js, Ts = m.solve_stochast(horizon, n_runs, exact=True, full_output=True)
+            if gridded:
+                tg = np.array([0.0, 0.5 * horizon, horizon]) if kind != "sir-final-size" else np.array([0.0, 200.0, 400.0])
+                Xg, Jg, _tg = m.solve_stochast(tg, n_runs, exact=True, full_output=True)
+                # present the last gridded row as a one-point "path" so that the binning below is shared
+                Xs = [np.vstack([np.asarray(X, dtype=float)[0], np.asarray(X, dtype=float)[-1]]) for X in Xg]
+                Ts = [np.array([0.0, float(tg[-1])]) for _ in Xg]
+                Js = Jg
+                horizon_read = float(tg[-1])
+            else:
+                Xs, Js, Ts = m.solve_stochast(horizon, n_runs, exact=True, full_output=True)
+                horizon_read = horizon
     except Exception as e:
         return {"status": "violated", "sample": cfg, "counters": counters, "classes": [kind],
                 "witnesses": [{"what": "exact simulation raised", "error": short_exc(e), "tb": tb_tail(e)}]}
     counters["runs"] = n_runs
-    counters["events_simulated"] = int(sum(len(np.asarray(T)) - 1 for T in Ts))
+    counters["events_simulated"] = int(sum(np.asarray(J, dtype=float).sum() for J in Js)) if gridded else int(sum(len(np.asarray(T)) - 1 for T in Ts))
+    counters["gridded_configurations" if gridded else "raw_configurations"] = 1
+    horizon = horizon_read
     if kind == "first-step":
         nE = len(spec["events"])
         which = np.zeros(nE)
